@@ -37,6 +37,16 @@ func ReducedSentences() []string {
 		out = append(out, "$[?(!"+l+")]")
 		out = append(out, "$[?(! "+l+")]")
 	}
+	// names a library might be tempted to know by itself: only registered functions exist
+	for _, n := range BuiltinLookingNames {
+		out = append(out, "$.a."+n+"()", "$.*."+n+"()", "$[?(@.a."+n+"() == 1)]", "$.a.f1()."+n+"()")
+	}
+	// quoted names ending in / holding escapes at the edge of JSON's string syntax
+	for _, q := range []string{`'`, `"`} {
+		for _, body := range []string{`a\ud834`, `\udd1e`, `\ud834\udd1e`, `\ud834x`, `\ud834\u0041`, `a\"`, `a\'`, `\\'b`, `\\"b`, `a\\`, `\u00e9`, `\u12`, `\x41`, `\/`, `\b`, `\a`} {
+			out = append(out, "$["+q+body+q+"]", "$..["+q+body+q+",'c']", "$[?(@["+q+body+q+"])]")
+		}
+	}
 	atoms := []string{"@.a", "!@.a", "$.a", "!$.a", "@.a == 1", "1 == 1", "1 == 2", "@.a != $.b", "@.a < 1", "$.a >= 1", "@.a =~ /a/", "(@.a)", "(@.a == 1)"}
 	for _, a := range atoms {
 		for _, b := range atoms {
@@ -50,7 +60,7 @@ func ReducedSentences() []string {
 
 // TrickyRegexes are regular expressions at the edge of Go's syntax (valid and invalid ones):
 // the documented restriction is "valid for Go as written".
-var TrickyRegexes = []string{"a)(b", "x)|(y", "^1)$|^(2$", "(", ")", "a**", "(?s:a)", "(?i)a", `\`, "a{2,1}", "(?P<n>a)", `\pL`, "[[:alpha:]]", "(?<n>a)", "a{1001}", `\Qa.b\E`, "(?s).", `\z`, "[a-", "(?i", `\8`, "x*+"}
+var TrickyRegexes = []string{"^", "$", "", "^$", "$^", " ", "^ ", "a b", `\/`, "a)(b", "x)|(y", "^1)$|^(2$", "(", ")", "a**", "(?s:a)", "(?i)a", `\`, "a{2,1}", "(?P<n>a)", `\pL`, "[[:alpha:]]", "(?<n>a)", "a{1001}", `\Qa.b\E`, "(?s).", `\z`, "[a-", "(?i", `\8`, "x*+"}
 
 // Vocabulary is the terminal vocabulary of the grammar (token-level mutations, token soup).
 var Vocabulary = []string{
@@ -60,7 +70,13 @@ var Vocabulary = []string{
 	"\\u0041", "\\ud800", "\\n", "\\'", "\\\\", "é", "😀", "\x00", "\x7f", "[*]", "['a']", "[0]", "[0:1]", "[::2]", "[(1)]",
 	"9223372036854775807", "-9223372036854775808", "9223372036854775808", "2147483648", "-2147483649", "99999999999999999999",
 	"1e400", "['a','b']", "[?(@.a)]", "[?(@.a == 1)]", "@.a", "$.a", "..a", ".a",
+	".count()", ".sum()", ".avg()", ".min()", ".max()", ".median()", ".length()", ".len()", ".size()", ".keys()", ".values()", ".first()", ".last()", ".type()", ".match()", ".value()",
+	"=~/^/", "=~/$/", "=~//", "=~ / /", "\\ud834'", "\\udd1e\"", "\\\"", "\\\\'", "‘", "’", "“", "”", "\u00a0", "\u3000", "\ufeff",
 }
+
+// BuiltinLookingNames are function names that sound built in (aggregates of other JSONPath
+// dialects, RFC 9535 function extensions): none exists unless the Config registers it.
+var BuiltinLookingNames = []string{"count", "sum", "avg", "min", "max", "median", "length", "len", "size", "keys", "values", "first", "last", "type", "match", "search", "value", "abs", "floor", "ceil", "concat", "append", "index", "distinct", "sort", "reverse", "tojson", "tostring"}
 
 // BoundaryInts are integer literal spellings at and around the int limits (G-MUT (e)).
 var BoundaryInts = []string{
